@@ -37,6 +37,7 @@ type violation struct {
 }
 
 type Machine struct {
+	noAssume bool // set while vrt.Check runs
 	prog    *ssa.Program
 	globals map[*ssa.Global]*value
 	solver  *Solver
@@ -779,6 +780,13 @@ func (m *Machine) visitInstr(fr *frame, instr ssa.Instruction) continuation {
 		p := fr.get(instr.X).(*value)
 		if p == nil {
 			m.goPanic("nil pointer dereference (field " + instr.String() + ")")
+		}
+		if db, ok := (*p).(*boltDB); ok {
+			// a configuration field of the modelled *bbolt.DB
+			st := deref(instr.X.Type()).Underlying().(*types.Struct)
+			f := st.Field(instr.Field)
+			fr.set(instr, db.fieldCell(f.Name(), zero(f.Type())))
+			break
 		}
 		fr.set(instr, &(*p).(structure)[instr.Field])
 	case *ssa.Field:
